@@ -130,8 +130,10 @@ def lex_opcode_size(s: "Scanner") -> None:
 
         return lex_operand(s)
     else:
+        # the position is taken first: when the line ends after the dot, consuming the newline would move it to the next line.
+        position = s.get_position()
         s.next()
-        raise ScannerException("Invalid Size Specifier", s.get_position())
+        raise ScannerException("Invalid Size Specifier", position)
 
 
 def lex_opcode(s: "Scanner") -> None:
